@@ -49,6 +49,7 @@ type pendingOp struct {
 	hasTick  bool
 	failErr  error
 	ioFailed bool // the device refused a write during this upload's copy
+	sawVisible string // a read or existence check that only this (then unfinished) upload can have made succeed
 	// what had happened when the upload started
 	corruptionsAtStart int
 	discardsAtStart    float64
@@ -273,7 +274,7 @@ func (r *Runner) launchPut(id, obj, ver int, chunking, fault string) (*pendingOp
 }
 
 // consumeMode consumes a buffer returned by the store in one of the ways clients do: "s" ToByteSlice, "r" ToReader
-// read to the end, "c" ToChunkReader in small chunks, "w" IntoWriter, "a" ReadAt piecewise; "p" ToReader closed after
+// read to the end, "c" ToChunkReader in small chunks, "w" IntoWriter, "a" ReadAt of the whole object, "q" ReadAt of a middle range; "p" ToReader closed after
 // one byte, "d" Discard and "x" ToByteSlice with a limit below the size abandon the data (kind "abandoned": the outcome of the read is not observed).
 func consumeMode(b buffer.Buffer, mode string, size int) (string, []byte) {
 	var data []byte
@@ -312,6 +313,19 @@ func consumeMode(b buffer.Buffer, mode string, size int) (string, []byte) {
 		data = data[:n]
 		if err == io.EOF && n == size {
 			err = nil
+		}
+	case "q":
+		// one ReadAt of a range in the middle of the object: the reply carries the range, the caller compares it with
+		// that part of the content
+		if size < 3 {
+			return consumeMode(b, "a", size)
+		}
+		off, ln := size/3, size/3
+		data = make([]byte, ln)
+		var n int
+		n, err = b.ReadAt(data, int64(off))
+		if err == nil || (err == io.EOF && n == ln) {
+			return fmt.Sprintf("partial %d", off), data[:n]
 		}
 	case "p":
 		rd := b.ToReader()
